@@ -35,5 +35,15 @@ PROPS = {
     },
 }
 
+PROPS["C14"] = {
+    "suites": [{"name": "loc", "quick": 1500, "thorough": 40000, "thorough_seeds": 3}],
+    "rule": "loc: 1-5 locations (hosts ⊆ 3 hosts or none, prefixes ⊆ 6 overlapping prefixes or none, occasional duplicate names), a server "
+            "listing a shuffled subset of them (plus an unknown name), 6 requests (host × uri) each through the real middleware chain; each "
+            "location has its own upstream so the contacted upstream identifies the choice; judged by membership in the model's allowed set "
+            "(the sort is unstable). non-trivial = every request; distinct = distinct (locations, names, host, uri).",
+    "assumptions": ["sort.Slice yields some permutation sorted by the comparator (any order within a class)"],
+    "trusted_base": ["sort.Slice", "strings.HasPrefix"],
+}
+
 NOT_APPLICABLE = {}
 HOOK_COMMITS = ["ca43a57", "6332ff2"]
